@@ -60,6 +60,7 @@ def gen_step(rng, d, n):
 
 def gen_cases(rng, tier):
     N = 240 if tier == 'quick' else 4000
+    yield from gen_equals(rng, tier)
     # documented type promotion of element-wise operators between two Arrays, for every pair of dtypes
     for d1 in PROMO:
         for d2 in PROMO:
@@ -182,6 +183,319 @@ def gen_cases(rng, tier):
 
 PROMO = ['uint8', 'uint5', 'int7', 'int16', 'uint16', 'int8', 'float16', 'float32', 'float64', 'bfloat', 'e4m3mxfp', 'e5m2mxfp', 'e3m2mxfp', 'e2m3mxfp', 'e2m1mxfp', 'e8m0mxfp', 'mxint',
          'p4binary', 'p3binary', 'bool', 'uintle16', 'intbe16', 'hex4', 'bytes1']
+
+# ---- equals() with every kind of operand ---------------------------------------------------------------------------------------------------------
+# a.equals(array.array): True exactly when the Array has no trailing bits, the item widths are the same and the two LISTS of items are equal - whatever the
+# byte order / layout of the Array's dtype (an array.array holds native items; the Array's data need not look like them), for every typecode against every
+# dtype: other endianness, other width with equal small values, items whose bytes coincide although the values differ (byte-swapped values, two's complement
+# readings, the same bytes at another item width), zeros of either sign (equal as items), one item off at any position, one item more or fewer.
+# a.equals(Array): the same dtype and the same items -> True; another dtype -> False even when the data or the lists are the same.
+# Anything else (tuple, bytes, bitstrings, memoryviews, numbers, None) is not equal to an Array.
+# The Arrays are made through several routes (list, raw bytes, dtype change, item by item, a slice of a longer one, repaired after a mutation, a copy).
+# The reference is the pair of plain Python lists in the case and the tables below; where the documentation and the list model can be read differently
+# (nan against nan, a typecode of another number kind holding == values, 0.0 against -0.0 between two Arrays, 'uint16' against 'uintbe16') nothing is demanded.
+import sys as _sys
+_NAT = 'le' if _sys.byteorder == 'little' else 'be'
+# dtype -> (kind, byte order, bits). 'plain' = the bit-wise big-endian types without a byte order in their name
+EQ_DTYPES = {'uint8': ('u', 'plain', 8), 'u8': ('u', 'plain', 8), 'int8': ('i', 'plain', 8), '=B': ('u', 'plain', 8), '>b': ('i', 'plain', 8),
+             'uint16': ('u', 'plain', 16), 'int16': ('i', 'plain', 16), 'uint32': ('u', 'plain', 32), 'int32': ('i', 'plain', 32), 'uint64': ('u', 'plain', 64), 'int64': ('i', 'plain', 64),
+             'uintbe16': ('u', 'be', 16), 'intbe16': ('i', 'be', 16), 'uintbe32': ('u', 'be', 32), 'intbe64': ('i', 'be', 64), 'uintle16': ('u', 'le', 16), 'intle16': ('i', 'le', 16),
+             'uintle32': ('u', 'le', 32), 'intle32': ('i', 'le', 32), 'uintle64': ('u', 'le', 64), 'intle64': ('i', 'le', 64), 'uintne16': ('u', _NAT, 16), 'intne32': ('i', _NAT, 32), 'uintne64': ('u', _NAT, 64),
+             '>H': ('u', 'be', 16), '<H': ('u', 'le', 16), '=H': ('u', _NAT, 16), '>h': ('i', 'be', 16), '<h': ('i', 'le', 16), '=h': ('i', _NAT, 16), '>I': ('u', 'be', 32), '<I': ('u', 'le', 32), '>i': ('i', 'be', 32),
+             '<l': ('i', 'le', 32), '>L': ('u', 'be', 32), '>Q': ('u', 'be', 64), '<q': ('i', 'le', 64), '=q': ('i', _NAT, 64), '>q': ('i', 'be', 64),
+             'float32': ('f', 'plain', 32), 'float64': ('f', 'plain', 64), 'floatbe32': ('f', 'be', 32), 'floatbe64': ('f', 'be', 64), 'floatle32': ('f', 'le', 32), 'floatle64': ('f', 'le', 64),
+             'floatne32': ('f', _NAT, 32), 'floatne64': ('f', _NAT, 64), '>f': ('f', 'be', 32), '<f': ('f', 'le', 32), '=f': ('f', _NAT, 32), '>d': ('f', 'be', 64), '<d': ('f', 'le', 64), '=d': ('f', _NAT, 64),
+             'float16': ('f', 'plain', 16), 'floatle16': ('f', 'le', 16), '>e': ('f', 'be', 16), 'bfloat': ('bf', 'plain', 16),
+             # widths no typecode has, and items that are not numbers
+             'uint12': ('u', 'plain', 12), 'uint5': ('u', 'plain', 5), 'int7': ('i', 'plain', 7), 'uint24': ('u', 'plain', 24), 'intle24': ('i', 'le', 24), 'uint4': ('u', 'plain', 4), 'uint9': ('u', 'plain', 9), 'uint1': ('u', 'plain', 1),
+             'uint2': ('u', 'plain', 2), 'uint15': ('u', 'plain', 15), 'uint17': ('u', 'plain', 17), 'uint31': ('u', 'plain', 31), 'uint33': ('u', 'plain', 33), 'uint63': ('u', 'plain', 63), 'uint65': ('u', 'plain', 65),
+             'int9': ('i', 'plain', 9), 'int12': ('i', 'plain', 12), 'int20': ('i', 'plain', 20), 'int36': ('i', 'plain', 36), 'int4': ('i', 'plain', 4), 'int2': ('i', 'plain', 2), 'uint128': ('u', 'plain', 128), 'uintle128': ('u', 'le', 128),
+             'hex8': ('hex', 'plain', 8), 'hex16': ('hex', 'plain', 16), 'bin8': ('bin', 'plain', 8), 'bytes1': ('bytes', 'plain', 8), 'bytes2': ('bytes', 'plain', 16), 'bytes4': ('bytes', 'plain', 32), 'bool': ('bool', 'plain', 1),
+             'p4binary': ('p4', 'plain', 8), 'e4m3mxfp': ('e4m3', 'plain', 8)}
+EQ_CODES = 'bBhHiIlLqQfd'
+EQ_OTHERS = ['tuple', 'bytes', 'bytearray', 'memoryview', 'mv_array', 'Bits', 'BitArray', 'BitStream', 'int', 'None', 'str', 'float', 'iter', 'dict', 'set']
+EQ_ROUTES = ['list', 'list', 'bytes', 'astype', 'grow', 'slice', 'mutated', 'copy', 'tuple', 'data']
+
+def eq_code_info(code):
+    """(kind, bits) of an array.array typecode on this machine (struct's native sizes)"""
+    return ('f' if code in 'fd' else 'i' if code.islower() else 'u'), 8 * struct.calcsize('@' + code)
+
+def eq_bytes(d, v):
+    """the bytes of item v under dtype d (whole-byte numeric dtypes), by struct / int.to_bytes"""
+    k, order, w = EQ_DTYPES[d]
+    big = order in ('plain', 'be')
+    if k == 'f': return struct.pack(('>' if big else '<') + {16: 'e', 32: 'f', 64: 'd'}[w], v)
+    return int(v).to_bytes(w // 8, 'big' if big else 'little', signed=(k == 'i'))
+
+def eq_pool(rng, k, w, narrow=None):
+    """a value of the kind, exactly representable at w bits (and, with `narrow`, also at that smaller width)"""
+    ww = min(w, narrow) if narrow else w
+    if k == 'u':
+        return rng.choice([0, 1, 2, 3, 255, 256, 257, 258, 0x0102, 0x0201, 0x0101, 1 << (ww - 1), (1 << ww) - 1, (1 << ww) - 2, 1 << (ww // 2), rng.randrange(1 << ww), rng.randrange(1 << ww)]) % (1 << ww)
+    if k == 'i':
+        lo, hi = -(1 << (ww - 1)), (1 << (ww - 1)) - 1
+        return max(lo, min(hi, rng.choice([0, 1, -1, 2, -2, 5, -257, 1280, 255, 256, -256, lo, hi, lo + 1, rng.randrange(lo, hi + 1), rng.randrange(lo, hi + 1)])))
+    if k == 'f':
+        if w == 16 and narrow is None: return rng.choice([0.0, -0.0, 1.0, 1.5, -3.25, 2.0, 0.5, -0.5, 100.0, 65504.0, 0.25])
+        return rng.choice([0.0, -0.0, 0.0, 1.0, 1.5, -3.25, 2.0, 0.5, -0.5, 100.0, 0.25, 3.0, -1.0, 1024.0, 7.0] + ([1e300, 0.1, -2.5e-7] if w == 64 and not narrow else []))
+    if k in ('p4', 'e4m3', 'bf'): return rng.choice([0.0, 1.0, -1.0, 2.0, 0.5, 1.5, -2.0, 3.0, 4.0])
+    if k == 'hex': return ''.join(rng.choice('0123456789abcdef') for _ in range(w // 4))
+    if k == 'bin': return ''.join(rng.choice('01') for _ in range(w))
+    if k == 'bytes': return {'b': [rng.choice([0, 1, 2, 97, 255, rng.randrange(256)]) for _ in range(w // 8)]}
+    if k == 'bool': return rng.random() < 0.5
+    raise AssertionError(k)
+
+def eq_code_value(rng, code):
+    k, bits = eq_code_info(code)
+    return eq_pool(rng, k, bits)
+
+def eq_fits(code, v):
+    k, bits = eq_code_info(code)
+    if k == 'f': return isinstance(v, (int, float)) and not isinstance(v, bool)
+    if not isinstance(v, int) or isinstance(v, bool): return False
+    return (-(1 << (bits - 1)) <= v < (1 << (bits - 1))) if k == 'i' else (0 <= v < (1 << bits))
+
+def eq_is_code(d): return d[0] in '<>='
+
+def eq_same_dtype(d, d2):
+    """True: certainly one dtype; False: certainly two; None: two spellings of one layout, where "equivalent" can be read either way ('uint16' / 'uintbe16' / '>H')"""
+    (k, o, w), (k2, o2, w2) = EQ_DTYPES[d], EQ_DTYPES[d2]
+    if (k, w) != (k2, w2): return False
+    if o != o2: return False if 'le' in (o, o2) and w > 8 else None
+    return True if d == d2 or eq_is_code(d) == eq_is_code(d2) else None
+
+def gen_equals(rng, tier):
+    quick = tier == 'quick'
+    numeric = [d for d, (k, o, w) in EQ_DTYPES.items() if k in 'uif']
+    def codes_for(k, w): return [cd for cd in EQ_CODES if eq_code_info(cd) == (k, w)]
+    def case(d, other, rel, n=None, route=None, trail=None, lsb0=None):
+        """other: 'array:<code>' | 'Array:<dtype>' | one of EQ_OTHERS; rel: how the second list relates to the first"""
+        k, order, w = EQ_DTYPES[d]
+        n = rng.choice([0, 1, 1, 2, 3, 3, 4, 5, 8]) if n is None else n
+        okind, _, oarg = other.partition(':')
+        k2, w2 = eq_code_info(oarg) if okind == 'array' else (EQ_DTYPES[oarg][0], EQ_DTYPES[oarg][2]) if okind == 'Array' else (k, w)
+        # values both sides can hold (so that "the same small values at another width / signedness" occurs)
+        narrow = None
+        if k in 'ui' and k2 in 'ui' and (k2, w2) != (k, w): narrow = max(1, min(w, w2) - (1 if k != k2 else 0))
+        elif k == 'f' and k2 == 'f' and w2 != w: narrow = 16
+        def draw():
+            x = eq_pool(rng, k, w, narrow)
+            return abs(x) if narrow and k == 'i' and k2 == 'u' else x
+        v1 = [draw() for _ in range(n)]
+        if rel == 'signzero' and k == 'f' and n: v1[rng.randrange(n)] = rng.choice([0.0, -0.0])
+        if rel in ('nan', 'nan_one') and k == 'f' and n: v1[rng.randrange(n)] = float('nan')
+        v2 = list(v1)
+        if rel == 'one_off' and n:
+            i = rng.choice([0, n - 1, rng.randrange(n)])
+            for _ in range(20):
+                x = draw()
+                if x != v1[i]: v2[i] = x; break
+        elif rel == 'shorter' and n: v2 = v2[:-1] if rng.random() < 0.7 else v2[1:]
+        elif rel == 'longer': v2 = v2 + [draw()] if rng.random() < 0.7 or not n else [v2[0]] + v2
+        elif rel == 'signzero' and k == 'f': v2 = [(-x if x == 0 else x) for x in v2]
+        elif rel == 'nan_one' and k == 'f' and n:
+            i = next(i for i, x in enumerate(v1) if x != x); v2[i] = rng.choice([0.0, 1.0])
+        elif rel == 'swapped' and k in 'uif' and w % 8 == 0 and okind == 'array' and w2 == w:
+            v2 = [struct.unpack('@' + oarg, eq_bytes(d, x))[0] for x in v1]          # the items whose NATIVE bytes are the bytes the Array stores
+        elif rel == 'rebytes' and k in 'uif' and w % 8 == 0 and okind == 'array':
+            raw = b''.join(eq_bytes(d, x) for x in v1); sz = struct.calcsize('@' + oarg)          # the same bytes seen at the operand's item width
+            raw = raw[:len(raw) // sz * sz]
+            v2 = list(struct.unpack('@' + str(len(raw) // sz) + oarg, raw))
+        if okind == 'array':
+            # what the typecode cannot hold is replaced (the lists then differ, which the reference sees)
+            v2 = [x if (x != x and oarg in 'fd') or (x == x and eq_fits(oarg, x)) else eq_code_value(rng, oarg) for x in v2]
+            if oarg in 'fd': v2 = [float(x) for x in v2]
+            if oarg == 'f': v2 = [x if x != x else (struct.unpack('@f', struct.pack('@f', x))[0] if abs(x) < 3e38 else 1.0) for x in v2]          # (what the array will really hold)
+        elif okind == 'Array' and ((k2 != k and not (k in 'ui' and k2 in 'ui')) or (w2 != w and k not in 'uif')):
+            v2 = [eq_pool(rng, k2, w2) for _ in range(len(v2))]          # items of another kind of dtype
+        lsb0 = (rng.random() < 0.12) if lsb0 is None else lsb0
+        c = {'op': 'equals', 'dtype': d, 'v1': [cv(x) for x in v1], 'other': other, 'v2': [cv(x) for x in v2], 'rel': rel, 'route': route or rng.choice(EQ_ROUTES),
+             'trail': '' if lsb0 else ((rand_bits(rng, rng.randrange(1, w)) if w > 1 and rng.random() < 0.12 else '') if trail is None else trail), 'lsb0': lsb0, 'sub': rng.random() < 0.1}
+        if okind == 'Array': c['trail2'] = '' if lsb0 else c['trail'] if len(c['trail']) < w2 and rng.random() < 0.8 else (rand_bits(rng, rng.randrange(1, w2)) if w2 > 1 and rng.random() < 0.5 else '')
+        if c['route'] in ('bytes', 'astype') and not (k in 'uif' and w % 8 == 0): c['route'] = 'list'
+        if c['route'] == 'mutated' and not n: c['route'] = 'list'
+        if lsb0 and c['route'] in ('bytes', 'astype', 'slice', 'data', 'grow'): c['route'] = 'list'
+        return c
+    rels = ['same', 'same', 'one_off', 'shorter', 'longer', 'swapped', 'swapped', 'rebytes', 'signzero', 'nan', 'nan_one']
+    # 1. a grid: every dtype x a typecode of the same kind and width (every relation), so that no run misses a stratum
+    for d, (k, order, w) in EQ_DTYPES.items():
+        match = codes_for(k, w) if k in 'uif' else []
+        if not match: continue
+        for rel in ('same', 'one_off', 'swapped', 'signzero', 'longer', 'shorter'):
+            if rel == 'signzero' and k != 'f': continue
+            if quick and rng.random() < (0.35 if rel in ('same', 'swapped') else 0.7): continue
+            yield case(d, 'array:' + rng.choice(match), rel, n=rng.choice([1, 2, 3, 4]), trail='', lsb0=False)
+    # 1b. ... and a typecode of the same width but another kind (signed against unsigned: two's complement readings of the same bytes; int against float)
+    for d, (k, order, w) in EQ_DTYPES.items():
+        other_kind = [cd for cd in EQ_CODES if eq_code_info(cd)[1] == w and eq_code_info(cd)[0] != k]
+        if not other_kind or (quick and rng.random() < 0.5): continue
+        yield case(d, 'array:' + rng.choice(other_kind), rng.choice(['same', 'swapped', 'rebytes', 'one_off']), n=rng.choice([1, 2, 3]), trail='', lsb0=False)
+    # 1c. widths that an arithmetic slip would take for the typecode's: its size in bytes read as bits, 8 * size + 1 .. 7, 64 * size, half and double
+    for code in EQ_CODES:
+        ck, cb = eq_code_info(code)
+        near = [d for d, (k, o, w) in EQ_DTYPES.items() if k in 'ui' and w != cb and (w == cb // 8 or cb < w < cb + 8 or cb - 8 < w < cb or w == 8 * cb or w == 2 * cb or 2 * w == cb)]
+        for d in near:
+            if quick and rng.random() < 0.6: continue
+            yield case(d, 'array:' + code, 'same', n=rng.choice([1, 2, 3, 5]), trail='', lsb0=False)
+    # 2. every typecode x dtypes of every kind and width (the same small values at another width are not the same items ...)
+    for code in EQ_CODES:
+        for d in rng.sample(list(EQ_DTYPES), 10 if quick else len(EQ_DTYPES)):
+            yield case(d, 'array:' + code, rng.choice(rels))
+    # 3. random pairs, mostly with a typecode that could match
+    for _ in range(150 if quick else 5000):
+        d = rng.choice(numeric) if rng.random() < 0.85 else rng.choice(list(EQ_DTYPES))
+        k, order, w = EQ_DTYPES[d]
+        match = codes_for(k, w)
+        code = rng.choice(match) if match and rng.random() < 0.7 else rng.choice(EQ_CODES)
+        yield case(d, 'array:' + code, rng.choice(rels))
+    # 4. an Array as the operand: the same dtype, and every other one
+    for _ in range(120 if quick else 4000):
+        d = rng.choice(list(EQ_DTYPES)); k, order, w = EQ_DTYPES[d]
+        r = rng.random()
+        if r < 0.4: d2 = d
+        elif r < 0.75: d2 = rng.choice([x for x, (k2, o2, w2) in EQ_DTYPES.items() if x != d and (w2 == w or k2 == k)])
+        else: d2 = rng.choice(list(EQ_DTYPES))
+        yield case(d, 'Array:' + d2, rng.choice(['same', 'same', 'same', 'one_off', 'shorter', 'longer', 'signzero', 'nan', 'samedata', 'samedata']))
+    # ... the very same data under every other dtype (another reading of the same bits is another Array)
+    for d in EQ_DTYPES:
+        if quick and rng.random() < 0.5: continue
+        k, order, w = EQ_DTYPES[d]
+        d2 = rng.choice([x for x, (k2, o2, w2) in EQ_DTYPES.items() if x != d and (w2 == w or w % w2 == 0 or w2 % w == 0) and (k2 in 'ui' or k2 in ('hex', 'bin', 'bytes', 'bool') or w2 != w or k in 'ui')])
+        yield case(d, 'Array:' + d2, 'samedata', n=rng.choice([0, 1, 2, 4, 8]))
+    # 5. operands that are neither
+    for o in EQ_OTHERS:
+        for _ in range(3 if quick else 20):
+            yield case(rng.choice(list(EQ_DTYPES)), o, 'same')
+
+def eq_expected(c):
+    """True / False / None (nothing demanded) from the case alone"""
+    d = c['dtype']; k, order, w = EQ_DTYPES[d]
+    v1 = [pv(x) for x in c['v1']]; v2 = [pv(x) for x in c['v2']]
+    okind, _, oarg = c['other'].partition(':')
+    isnan = lambda x: isinstance(x, float) and x != x
+    def lists():
+        """'equal' / 'differ' / 'nan' (equal but for nan against nan)"""
+        if len(v1) != len(v2): return 'differ'
+        r = 'equal'
+        for x, y in zip(v1, v2):
+            if isnan(x) and isnan(y): r = 'nan'
+            elif x != y: return 'differ'
+        return r
+    if okind == 'array':
+        ck, cb = eq_code_info(oarg)
+        if c['trail']: return False
+        if cb != w: return False
+        L = lists()
+        if L == 'differ': return False
+        if L != 'equal' or ck != k: return None          # nan against nan; a typecode of another number kind whose values happen to be ==
+        return True
+    if okind == 'Array':
+        same = eq_same_dtype(d, oarg)
+        if same is False: return False          # another dtype: never equal, whatever the data or the lists
+        if same is None: return None
+        if c['rel'] == 'samedata': return None if any(isnan(x) for x in v1) else True          # the same dtype over the same bits
+        L = lists()
+        if L == 'differ': return False
+        if c['trail'] != c.get('trail2', ''): return None          # the same items, other trailing bits: the list model and "the same data" part ways
+        if L == 'nan': return None
+        if any(isinstance(x, float) and x == 0 and math.copysign(1, x) != math.copysign(1, y) for x, y in zip(v1, v2)): return None          # equal items, different data
+        return True
+    return False
+
+def eq_operand(c, a):
+    """the right operand of the case (runner side)"""
+    import array as _array, bitstring
+    from bitstring import Array, Bits
+    okind, _, oarg = c['other'].partition(':')
+    v2 = [pv(x) for x in c['v2']]
+    if okind == 'array':
+        if c.get('sub'):
+            class Sub(_array.array): pass
+            return Sub(oarg, v2)
+        return _array.array(oarg, v2)
+    if okind == 'Array' and c['rel'] == 'samedata':
+        b = Array(oarg); b.data = bitstring.BitArray(a.data); return b          # the same bits (trailing bits included) under the operand's dtype
+    if okind == 'Array': return Array(oarg, v2, trailing_bits=Bits(bin=c['trail2']) if c.get('trail2') else None)
+    items = a.tolist()
+    return {'tuple': lambda: tuple(items), 'bytes': a.tobytes, 'bytearray': lambda: bytearray(a.tobytes()), 'memoryview': lambda: memoryview(a.tobytes()),
+            'mv_array': lambda: memoryview(_array.array('B', a.tobytes())), 'Bits': lambda: Bits(a.data), 'BitArray': lambda: bitstring.BitArray(a.data), 'BitStream': lambda: bitstring.BitStream(a.data),
+            'int': lambda: len(items), 'None': lambda: None, 'str': lambda: str(items), 'float': lambda: 1.0, 'iter': lambda: iter(items), 'dict': lambda: dict.fromkeys(range(len(items))),
+            'set': lambda: frozenset(range(len(items)))}[okind]()
+
+def eq_build(c):
+    """the Array of the case through its route: must hold v1 (+ the trailing bits)"""
+    import bitstring
+    from bitstring import Array, Bits, BitArray
+    d = c['dtype']; v1 = [pv(x) for x in c['v1']]; r = c['route']
+    T = Bits(bin=c['trail']) if c['trail'] else None
+    if r == 'bytes': return Array(d, b''.join(eq_bytes(d, x) for x in v1), trailing_bits=T)
+    if r == 'astype':
+        a = Array('uint8', b''.join(eq_bytes(d, x) for x in v1), trailing_bits=T); a.dtype = d; return a
+    if r == 'grow':
+        a = Array(d)
+        for x in v1: a.append(x)
+        if T is not None: a.data += T
+        return a
+    if r == 'slice':
+        big = Array(d, v1[-1:] + v1 + v1[:1]); a = big[1:len(v1) + 1] if v1 else big[0:0]
+        if T is not None: a.data += T
+        return a
+    if r == 'mutated':
+        a = Array(d, v1 + v1[:1], trailing_bits=T); a[0] = v1[-1]; a.pop(); a[0] = v1[0]; return a
+    if r == 'copy': return _copy.copy(Array(d, v1, trailing_bits=T))
+    if r == 'tuple': return Array(d, tuple(v1), trailing_bits=T)
+    if r == 'data':
+        a = Array(d); a.data = BitArray(Array(d, v1).data); 
+        if T is not None: a.data += T
+        return a
+    return Array(d, v1, trailing_bits=T)
+
+def run_equals(c):
+    import bitstring
+    def f():
+        bitstring.options.lsb0 = bool(c.get('lsb0'))
+        try:
+            a = eq_build(c)
+            b = eq_operand(c, a)
+            before = snap(a)
+            isarr = c['other'].startswith(('array:', 'Array:'))
+            b_before = [cv(x) for x in b.tolist()] if isarr else None
+            r1 = a.equals(b); r2 = a.equals(b)
+            out = {'a': before, 'b': b_before, 'r': [r1, r2], 'a_same': snap(a) == before, 'b_same': ([cv(x) for x in b.tolist()] == b_before) if isarr else None}
+            if c['other'].startswith('Array:'): out['rev'] = b.equals(a); out['b_trail'] = b.trailing_bits.bin
+            out['self'] = [a.equals(a), a.equals(_copy.copy(a))]
+            return out
+        finally: bitstring.options.lsb0 = False
+    return attempt(f)
+
+def oracle_equals(c, obs):
+    d = c['dtype']; k, order, w = EQ_DTYPES[d]
+    okind, _, oarg = c['other'].partition(':')
+    shown = f"array.array({oarg!r}, {c['v2']})" if okind == 'array' else f"an Array({oarg!r}) over the same data" if c['rel'] == 'samedata' else (f"Array({oarg!r}, {c['v2']}{', trailing ' + repr(c['trail2']) if c.get('trail2') else ''})" if okind == 'Array' else f"a {okind} made from it")
+    what = f"Array({d!r}, {c['v1']}{', trailing ' + repr(c['trail']) if c['trail'] else ''}) [made by route {c['route']!r}{', lsb0' if c.get('lsb0') else ''}] .equals({shown})"
+    if obs[0] != 'ok': return f"{what}: raised {obs[1]}"
+    o = obs[1]
+    same_items = lambda xs, ys: list(xs) == list(ys)          # (canonical items: floats by their hex form)
+    # the operands are what the case says (list model of construction)
+    if not same_items(o['a'][0], c['v1']) or o['a'][3] != c['trail']: return f"{what}: the Array holds {o['a'][0]} trailing {o['a'][3]!r}"
+    if o['b'] is not None and okind == 'array' and not same_items(o['b'], c['v2']): return None          # (the array.array does not hold the intended items: no case)
+    if okind == 'Array' and c['rel'] != 'samedata' and (not same_items(o['b'], c['v2']) or o['b_trail'] != c.get('trail2', '')): return f"{what}: the operand holds {o['b']} trailing {o['b_trail']!r}"
+    if type(o['r'][0]) is not bool or o['r'][0] != o['r'][1]: return f"{what}: returned {o['r'][0]!r}, then {o['r'][1]!r}"
+    if not o['a_same'] or o['b_same'] is False: return f"{what}: the comparison changed an operand"
+    exp = eq_expected(c)
+    if exp is not None and o['r'][0] is not exp:
+        why = ''
+        if okind == 'array':
+            ck, cb = eq_code_info(oarg)
+            why = (f"the Array has trailing bits" if c['trail'] else f"items of {w} bits against items of {cb} bits" if cb != w else
+                   "the two lists of items are equal" if exp else "the two lists of items differ")
+        elif okind == 'Array': why = "the same dtype and the same items" if exp else ("the lists of items differ" if eq_same_dtype(d, oarg) else "another dtype")
+        else: why = "only an Array or an array.array can be equal to an Array"
+        return f"{what} returned {o['r'][0]}; the list model says {exp} ({why})"
+    if okind == 'Array' and exp is not None and o['rev'] is not exp: return f"{what}: {exp} as expected, but the operands exchanged give {o['rev']}"
+    has_nan = any(isinstance(pv(x), float) and pv(x) != pv(x) for x in c['v1'])
+    if not has_nan and o['self'] != [True, True]: return f"{what}: the Array against itself / its copy: {o['self']}"
+    return None
 
 # ---- bytes-like operands -----------------------------------------------------------------------------------------------------------------
 BUF_DTYPES = ['int8', 'int8', 'uint8', 'hex8', 'bytes1', 'bin8', 'bits8', 'oct6', 'e5m2mxfp', 'e2m1mxfp', 'intle16', 'uint8', 'int8', 'uint5', 'int7', 'uint3', 'uint12', 'int16', 'uint16', 'uintle16', 'intbe24', 'uintne32', 'int32', 'uint64', 'float16', 'float32', 'floatle64', 'bfloat', 'p4binary',
@@ -365,7 +679,17 @@ def apply_impl(a, st, rng):
             except Exception: pass
         return r + [snap(a)]
     if op == 'iter': return [cv(x) for x in a]
-    if op == 'equals': return [a.equals(Array(a.dtype, a.tolist(), trailing_bits=a.trailing_bits)), a.equals(a[:-1]) if len(a) else False, a.equals(5)]
+    if op == 'equals':
+        # ... and against an array.array of the matching typecode holding the same items (whatever byte order the dtype stores them in), and one with an item changed
+        import array as _array
+        nm = a.dtype.name; items = a.tolist(); arr = None
+        knd = 'u' if nm.startswith('uint') else 'i' if nm.startswith('int') else 'f' if nm.startswith('float') else None
+        code = next((cd for cd in EQ_CODES if knd and eq_code_info(cd) == (knd, a.itemsize)), None)
+        if code is not None and a.dtype.scale is None:
+            other = _array.array(code, items)
+            changed = _array.array(code, items[:-1] + [(1 if items[-1] != 1 else 2) if knd != 'f' else (1.0 if items[-1] != 1.0 else 2.0)]) if items else None
+            arr = [code, a.equals(other), a.equals(changed) if changed is not None else None, other.tolist() == items]
+        return [a.equals(Array(a.dtype, a.tolist(), trailing_bits=a.trailing_bits)), a.equals(a[:-1]) if len(a) else False, a.equals(5), arr]
     if op == 'astype':
         before = a.data.bin
         a.dtype = bitstring.Dtype(st['d'][5:], scale='auto') if st['d'].startswith('auto:') else st['d']
@@ -403,6 +727,7 @@ def run_impl(c):
                 a = Array(D(c['s1'])); a.extend(src)
             return [[cv(x) for x in a.tolist()], [cv(x) for x in src.tolist()]]
         return attempt(f)
+    if c['op'] == 'equals': return run_equals(c)
     if c['op'] == 'promote':
         def one(d, sc=None):
             a = Array(d)
@@ -527,6 +852,7 @@ def oracle_(c, obs):
         return None
     if c['op'] == 'bufinit': return oracle_bufinit(c, obs)
     if c['op'] == 'between': return oracle_between(c, obs)
+    if c['op'] == 'equals': return oracle_equals(c, obs)
     o = obs[1]
     if o['init'][0] != 'ok': return f"Array({c['dtype']!r}, {c['items']}) could not be built: {o['init']}"
     name, w = dtype_info(c['dtype'])
@@ -629,6 +955,10 @@ def oracle_(c, obs):
                 if a_after != before: return f"{where}: mutating the copy changed the original: {a_after}"
             elif op == 'equals':
                 if r[0] == 'ok' and ['f', 'nan'] not in L and (r[1][0] is not True or r[1][2] is not False or (n and r[1][1] is not False)): return f"{where}: equals gave {r}"
+                if r[0] == 'ok' and ['f', 'nan'] not in L and len(r[1]) > 3 and r[1][3] is not None and r[1][3][3]:
+                    code, same, off = r[1][3][:3]
+                    if same is not (not trail): return f"{where}: equals(array.array({code!r}, the same items)) gave {same}; the list model says {not trail}" + (' (trailing bits)' if trail else '')
+                    if off not in (None, False): return f"{where}: equals(array.array({code!r}, the items with the last one changed)) gave {off}"
             elif op == 'astype':
                 if st['d'] in REFUSED_DTYPES and r != ['err', 'ValueError']: return f"{where}: assigning this dtype must raise ValueError, got {str(r)[:100]}"
                 if r[0] == 'ok' and r[1] != [True]: return f"{where}: changing dtype altered the data"
@@ -778,7 +1108,7 @@ AOPS = {'add': 'AAdd', 'radd': 'AAdd', 'sub': 'ASub', 'mul': 'AMul', 'rmul': 'AM
 def coq_check(c, obs):
     """index / assignment / deletion / insert / append on the data bits, for dtypes whose item is w bits; the element-wise loops of ArrayOps.v
     for int items (scalar, in-place and Array-Array operators, comparisons) and the promotion function"""
-    if c['op'] == 'scaled': return None
+    if c['op'] in ('scaled', 'equals'): return None          # (equals with foreign operands: the Python oracle decides)
     if c['op'] == 'promote':
         from bitstring import Array, Dtype
         t1 = Dtype(c['d1'], scale=c['s1']) if c.get('s1') is not None else Array(c['d1']).dtype
